@@ -45,6 +45,7 @@ type rtCall struct {
 	Aborted  bool          // the caller's context ended while the call was in flight
 	TimedOut bool          // the request's own context ended (http.Client.Timeout) while the caller's is alive
 	AbortT   time.Duration // fake time of either
+	DoneT    time.Duration // fake time at which the server's answer was handed to http.Client
 	Out      *served       // what the driver decided; set on the driver goroutine before the release
 }
 
@@ -150,7 +151,7 @@ func (t *transport) RoundTrip(req *http.Request) (*http.Response, error) {
 	c.Idx = len(a.Calls)
 	a.Calls = append(a.Calls, c)
 	a.mu.Unlock()
-	if !t.s.ShuttingDown() {
+	if !t.s.ShuttingDown() && !t.s.Timed {
 		t.s.Observe(a.Party, fmt.Sprintf("attempt #%d %s %s follow=%v at %v", c.Idx, c.Method, c.Path, c.Follow, c.Arrive))
 	}
 	// ended records why an unanswered attempt came back: the caller's context, or only the
@@ -165,7 +166,7 @@ func (t *transport) RoundTrip(req *http.Request) (*http.Response, error) {
 		c.AbortT = t.s.Now()
 		timedOut := c.TimedOut
 		a.mu.Unlock()
-		if timedOut && !t.s.ShuttingDown() {
+		if timedOut && !t.s.ShuttingDown() && !t.s.Timed {
 			t.s.Observe(a.Party, fmt.Sprintf("attempt #%d cancelled by the client's per-attempt timeout at %v", c.Idx, c.AbortT))
 		}
 	}
@@ -190,6 +191,9 @@ func (t *transport) RoundTrip(req *http.Request) (*http.Response, error) {
 		if d.Kind == "shutdown" {
 			return nil, errShutdown
 		}
+		a.mu.Lock()
+		c.DoneT = t.s.Now() // the instant at which the client learns of the timeout
+		a.mu.Unlock()
 		return nil, cause
 	}
 	d, err := t.s.Seam(req.Context(), a.Party, "rt", req.Method+" "+req.URL.Path, c)
@@ -200,6 +204,11 @@ func (t *transport) RoundTrip(req *http.Request) (*http.Response, error) {
 	o := c.Out
 	if d.Kind == "shutdown" || o == nil {
 		return nil, errShutdown
+	}
+	if !o.Stall {
+		a.mu.Lock()
+		c.DoneT = t.s.Now()
+		a.mu.Unlock()
 	}
 	if o.Stall {
 		// a hung server: nothing comes back until the request is cancelled (caller's context,
